@@ -241,7 +241,7 @@ def _branch_feasible(tm: TemplateModel, tname: str, cond: str, env: dict):
 	n = tm.nodes
 	if cond == 'always':
 		return True
-	body = tm.asts[tname].body
+	body = tm.flat(tname).body
 	ifs = [b for b in body if isinstance(b, n.If)]
 	if not ifs:
 		return None
